@@ -931,6 +931,31 @@ func runNode27(r *realizer, subs map[string]int, order []string, pcs [][2]any, m
 		}
 		return stable >= 4
 	})
+	// confirm before report: if fewer handler invocations were seen than the authentic messages for held
+	// channels call for, the callback goroutines may simply not have run yet on a loaded machine: wait
+	// until the count has been unchanged for one second (at most 8 s)
+	expected := 0
+	seenTerm := map[string]bool{}
+	for _, m := range msgs {
+		if (m.class == "honest" || m.class == "honest-empty" || m.class == "marker") && !seenTerm[m.term()] {
+			seenTerm[m.term()] = true
+			expected += subs[m.body.ch]
+		}
+	}
+	count := func() int {
+		mu.Lock()
+		defer mu.Unlock()
+		return len(recs)
+	}
+	if count() < expected {
+		deadline, stableSince, lastN := time.Now().Add(8*time.Second), time.Now(), count()
+		for time.Now().Before(deadline) && time.Since(stableSince) < time.Second && lastN < expected {
+			time.Sleep(10 * time.Millisecond)
+			if k := count(); k != lastN {
+				lastN, stableSince = k, time.Now()
+			}
+		}
+	}
 	res.forwarded[1] = fwd(1)
 	res.forwarded[2] = fwd(2)
 	res.backToSender = fwd(0)
